@@ -103,6 +103,15 @@ func (x *Exec) logCallOpt(st *State, key string, args []Val, ts []types.Type, sh
 		darr := st.comp(dname, ArrSort(SI, term.Sort))
 		st.setComp(dname, Sto(darr, dn, term))
 	}
+	// counters of other logs at the time of this call (countat)
+	for k := range x.eng.logKeys {
+		if strings.HasPrefix(k, "countat:"+key+":") {
+			other := strings.TrimPrefix(k, "countat:"+key+":")
+			cname := "CS!" + sanitize(key) + "!" + sanitize(other)
+			arr := st.comp(cname, ArrSort(SI, SI))
+			st.setComp(cname, Sto(arr, n, st.comp("N!"+sanitize(other), SI)))
+		}
+	}
 	// global order of logged calls
 	tnow := st.comp("T!", SI)
 	tsName := "TS!" + sanitize(key)
@@ -681,6 +690,11 @@ func (x *Exec) havocLoc(st *State, l Loc) {
 			}
 		}
 		names["TS!"+key] = ArrSort(SI, SI)
+		for name, t := range st.heap {
+			if strings.HasPrefix(name, "CS!"+key+"!") {
+				names[name] = t.Sort
+			}
+		}
 		tOld := st.comp("T!", SI)
 		tNew := st.havocComp("T!", SI)
 		st.assume(Ge(tNew, tOld))
@@ -749,7 +763,7 @@ func (x *Exec) frameCheck(st *State, fr *Frame, base map[string]Term, baseWM Ter
 		if strings.HasPrefix(comp, "C!") || strings.HasPrefix(comp, "B!") {
 			// cells and closure objects: only fresh ones may be written unless declared
 		}
-		if strings.HasPrefix(comp, "A!") || strings.HasPrefix(comp, "R!") || comp == "T!" || strings.HasPrefix(comp, "TS!") || strings.HasPrefix(comp, "D!") || strings.HasPrefix(comp, "DA!") || strings.HasPrefix(comp, "DR!") || strings.HasPrefix(comp, "L!") || strings.HasPrefix(comp, "MU!") || strings.HasPrefix(comp, "ONCE!") || strings.HasPrefix(comp, "WG!") {
+		if strings.HasPrefix(comp, "A!") || strings.HasPrefix(comp, "R!") || comp == "T!" || strings.HasPrefix(comp, "TS!") || strings.HasPrefix(comp, "CS!") || strings.HasPrefix(comp, "D!") || strings.HasPrefix(comp, "DA!") || strings.HasPrefix(comp, "DR!") || strings.HasPrefix(comp, "L!") || strings.HasPrefix(comp, "MU!") || strings.HasPrefix(comp, "ONCE!") || strings.HasPrefix(comp, "WG!") {
 			continue // argument logs are covered by their N! counter
 		}
 		ls := byComp[comp]
